@@ -258,7 +258,7 @@ theorem unquoteBytes_quoteBytes (safe : Str) : ∀ (B rest : Bytes), (0x25 : UIn
         simp only [isSafe, Bool.and_eq_true, decide_eq_true_eq] at hs; exact hs.1
       rw [hq]
       have : toBytes [Char.ofNat b.toNat] = [b] := by
-        simp [toBytes, char_toNat_ofNat_lt (show b.toNat < 256 by omega), uint8_ofNat_toNat]
+        simp [toBytes, char_toNat_ofNat_lt (show b.toNat < 256 by omega)]
       rw [this, List.singleton_append, unquoteBytes_cons_ne hb, ih]
       rfl
     · have hq : quoteByte safe b = pct b := by simp [quoteByte, hs]
